@@ -1091,17 +1091,29 @@ class DiskRefsContainer(RefsContainer):
                 # reread cached refs from disk, while holding the lock
                 packed_refs = self.get_packed_refs().copy()
 
+                peeled_refs = self._peeled_refs
                 for ref, target in new_refs.items():
                     # sanity check
                     if ref == HEADREF:
                         raise ValueError("cannot pack HEAD")
+
+                    if (
+                        peeled_refs is not None
+                        and ref in peeled_refs
+                        and ref in packed_refs
+                        and packed_refs[ref] != target
+                    ):
+                        # what the old packed value peeled to says nothing
+                        # about the new one
+                        peeled_refs = dict(peeled_refs)
+                        del peeled_refs[ref]
 
                     if target is not None:
                         packed_refs[ref] = target
                     else:
                         packed_refs.pop(ref, None)
 
-                write_packed_refs(f, packed_refs, self._peeled_refs)
+                write_packed_refs(f, packed_refs, peeled_refs)
         finally:
             # Do not stat the path and associate that identity with the data
             # just written: another writer can replace packed-refs after the
@@ -1161,6 +1173,10 @@ class DiskRefsContainer(RefsContainer):
             or name not in self._packed_refs
         ):
             # No cache: no peeled refs were read, or this ref is loose
+            return None
+        if self.read_loose_ref(name) is not None:
+            # A loose ref shadows the packed one, whose cached peeled value
+            # says nothing about it
             return None
         if name in self._peeled_refs:
             return self._peeled_refs[name]
